@@ -12,7 +12,7 @@ try:
     if s.count(old) != 1:
         print(f"substitution matches {s.count(old)} times", file=sys.stderr); sys.exit(9)
     open(p, "w").write(s.replace(old, new))
-    env = dict(os.environ, PYVC_REPO=tmp, PYTHONPATH=tmp + "/src")
+    env = dict(os.environ, PYVC_REPO=tmp, PYTHONPATH=tmp + "/src", PYVC_OUT_DIR=tmp + "/out")
     sys.exit(subprocess.call(cmd, env=env))
 finally:
     shutil.rmtree(tmp, ignore_errors=True)
